@@ -391,3 +391,29 @@ func (r *Run) StartWatchdog(maxCase time.Duration, maxHeapBytes uint64, onTrip f
 		}
 	}()
 }
+
+// PanicSite condenses a "value\nstack" panic report into "<first line>@<top
+// maddy function>" — a stable, defect-specific fingerprint component.
+func PanicSite(p string) string {
+	lines := strings.Split(p, "\n")
+	first := lines[0]
+	if i := strings.Index(first, "): "); i >= 0 && strings.HasPrefix(first, "t") {
+		first = first[i+3:]
+	}
+	site := "?"
+	for _, l := range lines[1:] {
+		if !strings.HasPrefix(l, "github.com/foxcpp/maddy/") {
+			continue
+		}
+		fn := l
+		if i := strings.LastIndex(fn, "("); i > 0 {
+			fn = fn[:i]
+		}
+		if strings.Contains(fn, "/internal/verif/") || strings.Contains(fn, "TestVerif") || strings.Contains(fn, ".verif") {
+			continue
+		}
+		site = fn[strings.LastIndex(fn, "/")+1:]
+		break
+	}
+	return first + "@" + site
+}
